@@ -46,7 +46,8 @@ class BaseGotranODECodePrinter(StrPrinter):
 
     def _print_ceiling(self, expr):
         # ceiling (e.g. from an imported Myokit model) is not part of the grammar
-        return f"-floor(-({self._print(expr.args[0])}))"
+        # (in parentheses, so that e.g. a power applies to the whole expression)
+        return f"(-floor(-({self._print(expr.args[0])})))"
 
     def _print_Exp1(self, expr):
         # The symbol E is not part of the grammar
